@@ -533,4 +533,228 @@ theorem lex_sentence (s : Sentence) (hwf : s.wf = true) : lex s.render = .ok s.t
   rw [lex, Sentence.render_eq]
   simpa [Sentence.toks] using this
 
+
+/-! ### Parser steps -/
+
+section parser
+variable (O : Oracle)
+
+theorem pa_lp (cur : Frame) (outer : List Frame) (rest : List Tok) :
+    parseAndOr O cur outer (kwLp :: rest) = parseAndOr O Frame.init (cur :: outer) rest := by
+  have h1 : (kwLp = kwOrderby) = False := by decide
+  have h2 : (kwLp = kwLimit) = False := by decide
+  have h3 : (kwLp = kwOffset) = False := by decide
+  rw [parseAndOr.eq_def]; simp [h1, h2, h3]
+
+theorem pa_rp_pop (cur p : Frame) (outer : List Frame) (rest : List Tok) :
+    parseAndOr O cur (p :: outer) (kwRp :: rest) = parseAndOr O (p.add cur.finish) outer rest := by
+  have h0 : (kwRp = kwLp) = False := by decide
+  rw [parseAndOr.eq_def]; simp [h0]
+
+theorem pa_not (cur : Frame) (outer : List Frame) (rest : List Tok) :
+    parseAndOr O cur outer (kwNot :: rest) = parseAndOr O { cur with wrapNot := true, more := true } outer rest := by
+  have h1 : (kwNot = kwOrderby) = False := by decide
+  have h2 : (kwNot = kwLimit) = False := by decide
+  have h3 : (kwNot = kwOffset) = False := by decide
+  have h4 : (kwNot = kwLp) = False := by decide
+  have h5 : (kwNot = kwRp) = False := by decide
+  have h6 : (kwNot = kwAnd) = False := by decide
+  have h7 : (kwNot = kwOr) = False := by decide
+  rw [parseAndOr.eq_def]; simp [h1, h2, h3, h4, h5, h6, h7]
+
+theorem pa_and (cur : Frame) (outer : List Frame) (rest : List Tok) (h : (cur.typeSet && cur.isOr) = false) :
+    parseAndOr O cur outer (kwAnd :: rest) =
+      parseAndOr O { cur with isOr := false, typeSet := true, more := true } outer rest := by
+  have h1 : (kwAnd = kwOrderby) = False := by decide
+  have h2 : (kwAnd = kwLimit) = False := by decide
+  have h3 : (kwAnd = kwOffset) = False := by decide
+  have h4 : (kwAnd = kwLp) = False := by decide
+  have h5 : (kwAnd = kwRp) = False := by decide
+  rw [parseAndOr.eq_def]; simp [h1, h2, h3, h4, h5, h]
+
+theorem pa_or (cur : Frame) (outer : List Frame) (rest : List Tok) (h : (cur.typeSet && !cur.isOr) = false) :
+    parseAndOr O cur outer (kwOr :: rest) =
+      parseAndOr O { cur with isOr := true, typeSet := true, more := true } outer rest := by
+  have h1 : (kwOr = kwOrderby) = False := by decide
+  have h2 : (kwOr = kwLimit) = False := by decide
+  have h3 : (kwOr = kwOffset) = False := by decide
+  have h4 : (kwOr = kwLp) = False := by decide
+  have h5 : (kwOr = kwRp) = False := by decide
+  have h6 : (kwOr = kwAnd) = False := by decide
+  rw [parseAndOr.eq_def]; simp [h1, h2, h3, h4, h5, h6, h]
+
+theorem pa_cl_v (cur : Frame) (outer : List Frame) (key opn v : Tok) (rest : List Tok) (op : Nat)
+    (hm : cur.more = true) (hk : isStructural key = false) (hl : lookupOp opn = some op) (hn : opn ≠ kwNot)
+    (he : op ≠ opExists) :
+    parseAndOr O cur outer (key :: opn :: v :: rest) = parseAndOr O (cur.add (mkWhere O key op (.str v))) outer rest := by
+  simp only [isStructural, Bool.or_eq_false_iff, decide_eq_false_iff_not] at hk
+  obtain ⟨⟨⟨⟨k1, k2⟩, k3⟩, k4⟩, k5⟩ := hk
+  rw [parseAndOr.eq_def]; simp [hm, k1, k2, k3, k4, k5, hn, hl, he]
+
+theorem pa_cl_e (cur : Frame) (outer : List Frame) (key opn : Tok) (rest : List Tok)
+    (hm : cur.more = true) (hk : isStructural key = false) (hl : lookupOp opn = some opExists) (hn : opn ≠ kwNot) :
+    parseAndOr O cur outer (key :: opn :: rest) = parseAndOr O (cur.add (mkWhere O key opExists .nil)) outer rest := by
+  simp only [isStructural, Bool.or_eq_false_iff, decide_eq_false_iff_not] at hk
+  obtain ⟨⟨⟨⟨k1, k2⟩, k3⟩, k4⟩, k5⟩ := hk
+  rw [parseAndOr.eq_def]; simp [hm, k1, k2, k3, k4, k5, hn, hl]
+
+theorem pa_cl_nv (cur : Frame) (outer : List Frame) (key opn v : Tok) (rest : List Tok) (op : Nat)
+    (hm : cur.more = true) (hk : isStructural key = false) (hl : lookupOp opn = some op) (he : op ≠ opExists) :
+    parseAndOr O cur outer (key :: kwNot :: opn :: v :: rest) =
+      parseAndOr O (cur.add (.not (mkWhere O key op (.str v)))) outer rest := by
+  simp only [isStructural, Bool.or_eq_false_iff, decide_eq_false_iff_not] at hk
+  obtain ⟨⟨⟨⟨k1, k2⟩, k3⟩, k4⟩, k5⟩ := hk
+  rw [parseAndOr.eq_def]; simp [hm, k1, k2, k3, k4, k5, hl, he]
+
+theorem pa_cl_ne (cur : Frame) (outer : List Frame) (key opn : Tok) (rest : List Tok)
+    (hm : cur.more = true) (hk : isStructural key = false) (hl : lookupOp opn = some opExists) :
+    parseAndOr O cur outer (key :: kwNot :: opn :: rest) =
+      parseAndOr O (cur.add (.not (mkWhere O key opExists .nil))) outer rest := by
+  simp only [isStructural, Bool.or_eq_false_iff, decide_eq_false_iff_not] at hk
+  obtain ⟨⟨⟨⟨k1, k2⟩, k3⟩, k4⟩, k5⟩ := hk
+  rw [parseAndOr.eq_def]; simp [hm, k1, k2, k3, k4, k5, hl]
+
+/-- The rest of the snippets lets the root condition end here. -/
+def stopStart : List Tok → Bool
+  | [] => true
+  | t :: _ => t = kwOrderby || t = kwLimit || t = kwOffset
+
+theorem pa_stop (cur : Frame) (tail : List Tok) (hm : cur.more = false) (ht : stopStart tail = true) :
+    parseAndOr O cur [] tail = .ok (cur.finish, tail) := by
+  cases tail with
+  | nil => rw [parseAndOr.eq_def]; simp [hm]
+  | cons t r =>
+    simp only [stopStart, Bool.or_eq_true, decide_eq_true_eq] at ht
+    rw [parseAndOr.eq_def]
+    rcases ht with (h | h) | h <;> simp [hm, h]
+
+theorem lookupOp_not : lookupOp kwNot = none := by decide
+
+
+theorem condList_length (cs : List SCond) : (condList O cs).length = cs.length := by
+  induction cs with
+  | nil => rfl
+  | cons c r ih => simp [condList, ih]
+
+/-- The frame after the members `cs` of a group have been parsed into `f`. -/
+def fAfter (f : Frame) (isOr : Bool) (cs : List SCond) : Frame :=
+  { isOr := if 2 ≤ cs.length then isOr else f.isOr
+    typeSet := f.typeSet || decide (2 ≤ cs.length)
+    wrapNot := false
+    more := false
+    conds := f.conds ++ condList O cs }
+
+theorem add_plain (f : Frame) (c : Cond) (hw : f.wrapNot = false) :
+    f.add c = { f with conds := f.conds ++ [c], wrapNot := false, more := false } := by
+  simp [Frame.add, hw]
+
+theorem add_wrapped (f : Frame) (c : Cond) (hw : f.wrapNot = false) :
+    ({ f with wrapNot := true, more := true } : Frame).add c = f.add (.not c) := by
+  simp [Frame.add, hw]
+
+theorem pa_clause (g : List Char) (key : Word) (opn : Tok) (neg : Nat) (val : Option Word)
+    (hwf : (SCond.clause g key opn neg val).wf = true) (cur : Frame) (outer : List Frame) (rest : List Tok)
+    (hm : cur.more = true) (hw : cur.wrapNot = false) :
+    parseAndOr O cur outer ((SCond.clause g key opn neg val).toks ++ rest) =
+      parseAndOr O (cur.add ((SCond.clause g key opn neg val).cond O)) outer rest := by
+  simp only [SCond.wf, Bool.and_eq_true, decide_eq_true_eq, Bool.not_eq_true'] at hwf
+  obtain ⟨⟨⟨⟨_, _⟩, hkey⟩, hneg⟩, hop⟩ := hwf
+  cases hl : lookupOp opn with
+  | none => simp [hl] at hop
+  | some op =>
+    have hn : opn ≠ kwNot := by intro e; rw [e, lookupOp_not] at hl; cases hl
+    simp only [hl] at hop
+    have hneg3 : neg = 0 ∨ neg = 1 ∨ neg = 2 := by omega
+    cases val with
+    | none =>
+      have hop : op = opExists := by simpa using hop
+      subst hop
+      rcases hneg3 with rfl | rfl | rfl
+      · simpa [SCond.toks, SCond.cond, hl] using pa_cl_e O cur outer key.text opn rest hm hkey hl hn
+      · simpa [SCond.toks, SCond.cond, hl] using pa_cl_ne O cur outer key.text opn rest hm hkey hl
+      · have := pa_cl_e O { cur with wrapNot := true, more := true } outer key.text opn rest rfl hkey hl hn
+        rw [add_wrapped _ _ hw] at this
+        simpa [SCond.toks, SCond.cond, hl, pa_not] using this
+    | some v =>
+      simp only [Bool.and_eq_true, decide_eq_true_eq] at hop
+      have he : op ≠ opExists := by simpa using hop.1
+      rcases hneg3 with rfl | rfl | rfl
+      · simpa [SCond.toks, SCond.cond, hl] using pa_cl_v O cur outer key.text opn v.text rest op hm hkey hl hn he
+      · simpa [SCond.toks, SCond.cond, hl] using pa_cl_nv O cur outer key.text opn v.text rest op hm hkey hl he
+      · have := pa_cl_v O { cur with wrapNot := true, more := true } outer key.text opn v.text rest op rfl hkey hl hn he
+        rw [add_wrapped _ _ hw] at this
+        simpa [SCond.toks, SCond.cond, hl, pa_not] using this
+
+theorem membersToks_cons2 (conn : Tok) (c c' : SCond) (cs : List SCond) :
+    membersToks conn (c :: c' :: cs) = c.toks ++ conn :: membersToks conn (c' :: cs) := by
+  simp [membersToks]
+
+theorem finish_group (isOr : Bool) (cs : List SCond) (h : 2 ≤ cs.length) :
+    (fAfter O Frame.init isOr cs).finish = if isOr then Cond.or (condList O cs) else Cond.and (condList O cs) := by
+  have hl := condList_length O cs
+  simp only [fAfter, Frame.init, h, if_true, List.nil_append, Frame.finish]
+  match hc : condList O cs, hl with
+  | [], hl => simp at hl; omega
+  | [c], hl => simp at hl; omega
+  | a :: b :: r, _ => rfl
+
+mutual
+theorem pa_scond : (c : SCond) → c.wf = true → ∀ (cur : Frame) (outer : List Frame) (rest : List Tok),
+    cur.more = true → cur.wrapNot = false →
+    parseAndOr O cur outer (c.toks ++ rest) = parseAndOr O (cur.add (c.cond O)) outer rest
+  | .clause g key opn neg val, hwf, cur, outer, rest, hm, hw => pa_clause O g key opn neg val hwf cur outer rest hm hw
+  | .group isOr g p ng neg kids, hwf, cur, outer, rest, hm, hw => by
+    simp only [SCond.wf, Bool.and_eq_true, decide_eq_true_eq] at hwf
+    obtain ⟨⟨⟨⟨_, _⟩, _⟩, hk⟩, hlen⟩ := hwf
+    have hne : kids ≠ [] := by intro e; subst e; simp at hlen
+    have hfin := finish_group O isOr kids hlen
+    cases neg with
+    | false =>
+      have h1 := pa_members isOr kids hk hne Frame.init (cur :: outer) (kwRp :: rest) rfl rfl (by simp [Frame.init])
+      simp only [SCond.toks, SCond.cond, Bool.false_eq_true, if_false, List.nil_append, List.cons_append,
+        List.append_assoc, List.singleton_append]
+      rw [pa_lp, h1, pa_rp_pop, hfin]
+    | true =>
+      have h1 := pa_members isOr kids hk hne Frame.init ({ cur with wrapNot := true, more := true } :: outer)
+        (kwRp :: rest) rfl rfl (by simp [Frame.init])
+      simp only [SCond.toks, SCond.cond, if_true, List.cons_append, List.nil_append,
+        List.append_assoc, List.singleton_append]
+      rw [pa_not, pa_lp, h1, pa_rp_pop, hfin, add_wrapped _ _ hw]
+theorem pa_members (isOr : Bool) : (cs : List SCond) → kidsWf cs = true → cs ≠ [] →
+    ∀ (f : Frame) (outer : List Frame) (tail : List Tok), f.more = true → f.wrapNot = false →
+    (f.typeSet = true → f.isOr = isOr) →
+    parseAndOr O f outer (membersToks (connective isOr) cs ++ tail) = parseAndOr O (fAfter O f isOr cs) outer tail
+  | [], _, hne, _, _, _, _, _, _ => absurd rfl hne
+  | [c], hk, _, f, outer, tail, hm, hw, _ => by
+    simp only [kidsWf, Bool.and_eq_true] at hk
+    have := pa_scond c hk.1 f outer tail hm hw
+    simp only [membersToks]
+    rw [this, add_plain f _ hw]
+    simp [fAfter, condList]
+  | c :: c' :: cs, hk, _, f, outer, tail, hm, hw, hts => by
+    simp only [kidsWf, Bool.and_eq_true] at hk
+    have hk' : kidsWf (c' :: cs) = true := by simp [kidsWf, hk.2.1, hk.2.2]
+    have h1 := pa_scond c hk.1 f outer (connective isOr :: (membersToks (connective isOr) (c' :: cs) ++ tail)) hm hw
+    rw [membersToks_cons2, List.append_assoc, List.cons_append, h1, add_plain f _ hw]
+    cases isOr with
+    | false =>
+      have hc : (f.typeSet && f.isOr) = false := by
+        cases hts' : f.typeSet with
+        | false => rfl
+        | true => simp [hts hts']
+      refine (pa_and O _ outer _ (by simpa using hc)).trans ?_
+      refine (pa_members false (c' :: cs) hk' (by simp) _ outer tail rfl rfl (by simp)).trans ?_
+      simp [fAfter, condList, List.append_assoc]
+    | true =>
+      have hc : (f.typeSet && !f.isOr) = false := by
+        cases hts' : f.typeSet with
+        | false => rfl
+        | true => simp [hts hts']
+      refine (pa_or O _ outer _ (by simpa using hc)).trans ?_
+      refine (pa_members true (c' :: cs) hk' (by simp) _ outer tail rfl rfl (by simp)).trans ?_
+      simp [fAfter, condList, List.append_assoc]
+end
+
+end parser
+
 end PB.Query
